@@ -55,7 +55,12 @@ Deleted(cfg, share) == DeletedAt(cfg, share, Now)
 
 \* one crawl cycle over a set of shares: what is left
 CycleAt(cfg, shares, now) ==
-  {[id |-> s.id, type |-> s.type, sec |-> s.sec, leases |-> LeasesAfterAt(cfg, s, now)] : s \in {t \in shares : ~DeletedAt(cfg, t, now)}}
+  {[id |-> s.id, type |-> s.type, sec |-> s.sec, leases |-> LeasesAfterAt(cfg, s, now),
+    \* the leases that are still valid: what a survivor must keep whatever the removal primitive can do.  With a shared
+    \* cancel secret the statement leaves open whether the expired ones stay (cancel_lease by secret cannot remove them
+    \* alone) or go (a primitive that removes exactly the expired records): anything between `valid` and `leases` is right
+    valid |-> IF cfg.enabled THEN {r \in s.leases : ~LeaseRemovableAt(cfg, s, r, now)} ELSE s.leases]
+     : s \in {t \in shares : ~DeletedAt(cfg, t, now)}}
 Cycle(cfg, shares) == CycleAt(cfg, shares, Now)
 
 \* space-recovered counters of the cycle (numbers of shares)
@@ -66,7 +71,7 @@ ActualCount(cfg, shares) == IF cfg.enabled THEN ConfiguredCount(cfg, shares) ELS
 (* ---- C26, stated without the operators above ------------------------------ *)
 \* with expiration disabled nothing is deleted and no lease is removed
 C26_Disabled(cfg, shares, after) ==
-  ~cfg.enabled => after = {[id |-> s.id, type |-> s.type, sec |-> s.sec, leases |-> s.leases] : s \in shares}
+  ~cfg.enabled => after = {[id |-> s.id, type |-> s.type, sec |-> s.sec, leases |-> s.leases, valid |-> s.leases] : s \in shares}
 
 DocExpired(cfg, r) ==
   \/ cfg.mode = "age" /\ cfg.override = NoOverride /\ r + Duration < Now
